@@ -152,21 +152,35 @@ Proof.
   destruct p; try (rewrite ecount_nil; lia). contradiction.
 Qed.
 
-(** the queue of an EXEC (no blocking pop in it) *)
+(** a blocking pop with the id 0 of EXEC never touches the blocking manager *)
+Lemma h_bpop_zero left now s b dbi parts oms rep s' b' :
+  h_bpop left now s b 0 dbi parts oms = (rep, s', b') -> b' = b.
+Proof.
+  intros H. unfold h_bpop in H.
+  destruct (len parts <? 3); [injection H as _ _ <-; reflexivity|].
+  destruct (timeout_of (last parts FNull) oms); [|injection H as _ _ <-; reflexivity].
+  destruct (all_bulks (removelast (tl parts))); [|injection H as _ _ <-; reflexivity].
+  destruct (fast_path left (get_db s dbi) l) as [[r|] d']; injection H as _ _ <-; reflexivity.
+Qed.
+(** the queue of an EXEC *)
 Lemma bexec_queue_rel now dbi : forall q s b acc reps s' b',
-  forallb (fun p => negb (bpop_parts p)) q = true ->
   bexec_queue now s b dbi q acc = (reps, s', b') ->
   exists reps1, reps = rev acc ++ reps1 /\
     Rel b b' (fun db k => ecountm (db, k, None) (zip_effects (pushed_of dbi) q reps1)).
 Proof.
-  induction q as [|parts q IH]; intros s b acc reps s' b' Hq H; cbn [bexec_queue] in H.
+  induction q as [|parts q IH]; intros s b acc reps s' b' H; cbn [bexec_queue] in H.
   - injection H as <- _ <-. exists []. rewrite app_nil_r. split; [reflexivity|]. apply Rel_refl.
-  - cbn [forallb] in Hq. apply andb_true_iff in Hq. destruct Hq as [Hp Hq]. apply negb_true_iff in Hp.
-    destruct (bnormal now s b 0 dbi parts None None) as [[rep s1] b1] eqn:En.
+  - destruct (bnormal now s b 0 dbi parts None None) as [[rep s1] b1] eqn:En.
     assert (R1 : Rel b b1 (fun db k => ecountm (db, k, None) (pushed_of dbi parts rep))).
     { destruct parts as [|p rest]; [eapply bnormal_badhead_rel; [exact En|exact I]|].
-      destruct p; try (eapply bnormal_badhead_rel; [exact En|exact I]). eapply bnormal_rel; eauto. }
-    destruct (IH _ _ _ _ _ _ Hq H) as (reps1 & E & R2).
+      destruct p; try (eapply bnormal_badhead_rel; [exact En|exact I]).
+      destruct (bpop_parts (FBulk b0 :: rest)) eqn:Hp; [|eapply bnormal_rel; eauto].
+      assert (b1 = b).
+      { unfold bnormal in En. rewrite bpop_parts_names in Hp. destruct (beq (upper b0) (bs "BLPOP")); [eapply h_bpop_zero; exact En|].
+        cbn [orb] in Hp. rewrite Hp in En. eapply h_bpop_zero; exact En. }
+      subst b1. eapply Rel_weaken; [apply Rel_refl|]. intros db k. rewrite pushed_of_nil; [rewrite ecount_nil; lia|].
+      rewrite bpop_parts_names in Hp. apply orb_true_iff in Hp. destruct Hp as [Hp|Hp]; apply beq_eq in Hp; rewrite Hp; reflexivity. }
+    destruct (IH _ _ _ _ _ _ H) as (reps1 & E & R2).
     exists (rep :: reps1). cbn [rev] in E. rewrite <- app_assoc in E. split; [exact E|].
     cbn [zip_effects]. eapply Rel_weaken; [eapply Rel_trans; eauto|]. intros db k. cbn beta. rewrite ecount_app. lia.
 Qed.
@@ -221,6 +235,7 @@ Proof.
   { intros bx W1 W2 W3 E. injection E as _ <- <-. split; [exact W1|]. intros db k Hq. rewrite W2 in Hq.
     eapply block_case; eauto. }
   destruct r; try (eapply Same; exact H);
+    (destruct (c =? 0); [eapply Same; exact H|]);
     (destruct (zlookup c (s_conns s)); (eapply Blk; [| |apply Hnil; exact I|exact H]; reflexivity)).
 Qed.
 
@@ -288,6 +303,7 @@ Proof.
   destruct rest as [|kf [|tf [|? ?]]]; try (unfold len in Hlen; cbn [length] in Hlen; lia).
   cbn [tl removelast] in H. destruct kf as [| | |k0| | | | | | | | |]; cbn [all_bulks] in H; try (injection H as _ _ <-; auto).
   destruct (fast_path left (get_db s dbi) [k0]) as [[r|] d1]; [injection H as _ _ <-; auto|].
+  destruct (c =? 0); [injection H as _ _ <-; auto|].
   destruct (zlookup c (s_conns s)); injection H as _ _ <-; [|auto].
   intros c' st' Hl. cbn [set_blocked with_blk with_reg b_blk] in Hl. destruct (Z.eq_dec c' c) as [->|Hne].
   - rewrite zlookup_zset_same in Hl. injection Hl as <-. right. exists k0. reflexivity.
@@ -300,22 +316,22 @@ Proof. intros D Hd. specialize (D db k None Hd). rewrite !occm_none in D. exact 
 
 (** ================= one frame ================= *)
 Lemma frame_strand now s b c cn f oms rep s' b' :
-  cinv s -> agree b -> queues_ok s -> zlookup 0 (s_conns s) = None ->
-  zlookup c (s_conns s) = Some cn -> zlookup c (b_blk b) = None -> bpop_frame f && c_intx cn = false ->
+  cinv s -> agree b -> zlookup 0 (s_conns s) = None ->
+  zlookup c (s_conns s) = Some cn -> zlookup c (b_blk b) = None ->
   list_frame f = true -> single_key f = true ->
   SK b -> STRW s (b_reg b) (b_wake b) ->
   bprocess_frame now s b c f None oms = (rep, s', b') ->
   SK b' /\ STRW s' (b_reg b') (b_wake b').
 Proof.
-  intros CI HA Q H0 Hc Hnb Hg Hl Hsk HSK HST E.
+  intros CI HA H0 Hc Hnb Hl Hsk HSK HST E.
   destruct (bprocess_frame_delta _ _ _ _ _ _ _ _ _ _ CI Hc Hl E) as (CI' & D).
   destruct (bpf_shape _ _ _ _ _ _ _ _ _ _ CI Hc Hl E) as [[-> Eff]|[(reps & -> & Eq & Eff)|(nm & rest & -> & En & Eff)]].
   - (* nothing for the blocking manager *)
     split; [exact HSK|]. intros db k Hd Hq. pose proof (len_none_delta _ _ _ _ db k D Hd) as L. rewrite Eff, ecount_nil in L.
     pose proof (ecount_nonneg (db, k, None) (frame_effect returned_of s c f rep)). specialize (HST db k Hd Hq). lia.
   - (* EXEC *)
-    destruct (bexec_queue_inv _ _ _ _ _ _ _ _ _ HA (Q c cn Hc) Eq) as (_ & _ & _ & _ & Hblk).
-    destruct (bexec_queue_rel _ _ _ _ _ _ _ _ _ (Q c cn Hc) Eq) as (reps1 & E1 & R). cbn [rev app] in E1. subst reps1.
+    destruct (bexec_queue_inv _ _ _ _ _ _ _ _ _ HA Eq) as (_ & _ & _ & _ & Hblk).
+    destruct (bexec_queue_rel _ _ _ _ _ _ _ _ _ Eq) as (reps1 & E1 & R). cbn [rev app] in E1. subst reps1.
     split; [intros c' st' Hl'; rewrite Hblk in Hl'; eapply HSK; exact Hl'|].
     intros db k Hd Hq. destruct (R db k Hq) as [G1 G2]. pose proof (len_none_delta _ _ _ _ db k D Hd) as L. rewrite Eff in L.
     pose proof (ecount_nonneg (db, k, None) (frame_effect returned_of s c f (FArray reps))). specialize (HST db k Hd G1). lia.
@@ -323,7 +339,6 @@ Proof.
     destruct (bpop_parts (FBulk nm :: rest)) eqn:Hb.
     + (* a blocking pop on one key *)
       cbn [single_key] in Hsk. rewrite Hb in Hsk. apply Z.eqb_eq in Hsk.
-      cbn [bpop_frame] in Hg. rewrite Hb in Hg. cbn [andb] in Hg.
       assert (Hpn : pushed_of (c_db cn) (FBulk nm :: rest) rep = []).
       { apply pushed_of_nil. rewrite bpop_parts_names in Hb. apply orb_true_iff in Hb. destruct Hb as [Hb|Hb]; apply beq_eq in Hb; rewrite Hb; reflexivity. }
       assert (Hh : exists left, h_bpop left now s b c (c_db cn) (FBulk nm :: rest) oms = (rep, s', b')).
@@ -338,7 +353,7 @@ Proof.
            pose proof (ecount_nonneg (db, k, None) (frame_effect returned_of s c (FArray (FBulk nm :: rest)) rep)). specialize (HST db k Hd G). lia.
         -- pose proof (wcount_nonneg db k (b_wake b)). lia.
     + (* anything else: a push notifies *)
-      assert (Hg' : bpop_parts (FBulk nm :: rest) = true -> zlookup c (b_blk b) = None /\ exists cn0, zlookup c (s_conns s) = Some cn0) by (intros; congruence).
+      assert (Hg' : bpop_parts (FBulk nm :: rest) = true -> c <> 0 -> zlookup c (b_blk b) = None /\ exists cn0, zlookup c (s_conns s) = Some cn0) by (intros; congruence).
       destruct (bnormal_inv _ _ _ _ _ _ _ _ _ _ _ HA Hg' En) as (_ & _ & _ & _ & Hblk). rewrite Hb in Hblk.
       pose proof (bnormal_rel _ _ _ _ _ _ _ _ _ _ _ Hb En) as R.
       split; [intros c' st' Hl'; rewrite Hblk in Hl'; eapply HSK; exact Hl'|].
@@ -439,17 +454,17 @@ Proof.
   destruct (reach_g_ginv _ _ _ HG) as (HR & Hc & CI & HB & _).
   pose proof (ok_cons_ok _ _ Hokc) as Hok1.
   destruct st as [s b]. cbn [fst snd] in *.
-  destruct (reach_inv None _ HR) as [Hi|(HA & Q & H0)]; [cbn [snd] in Hi; congruence|]. cbn [fst snd] in *.
+  destruct (reach_inv None _ HR) as [Hi|(HA & H0)]; [cbn [snd] in Hi; congruence|]. cbn [fst snd] in *.
   unfold ok_sk in Hok. apply andb_true_iff in Hok. destruct Hok as [_ Hsk].
   unfold ok_cons in Hokc. apply andb_true_iff in Hokc. destruct Hokc as [_ Hlf].
   cbn [step]. rewrite Hc.
   destruct e as [now c f oms| |now|c|c].
   - (* a request *)
     cbn [ok] in Hok1. destruct (zlookup c (s_conns s)) as [cn|] eqn:Hcn; [|discriminate].
-    apply andb_true_iff in Hok1. destruct Hok1 as [Hok1 Hq]. apply andb_true_iff in Hok1. destruct Hok1 as [Hnb Hg].
-    apply negb_true_iff in Hnb, Hg. apply is_blocked_false in Hnb.
+    apply andb_true_iff in Hok1. destruct Hok1 as [Hnb Hq].
+    apply negb_true_iff in Hnb. apply is_blocked_false in Hnb.
     unfold frame_step. destruct (bprocess_frame now s b c f None oms) as [[rep s'] b1] eqn:E. cbn [fst snd].
-    destruct (frame_strand _ _ _ _ _ _ _ _ _ _ CI HA Q H0 Hcn Hnb Hg Hlf Hsk HSK HST E) as [S1 S2].
+    destruct (frame_strand _ _ _ _ _ _ _ _ _ _ CI HA H0 Hcn Hnb Hlf Hsk HSK HST E) as [S1 S2].
     destruct rep; split; assumption.
   - (* wake-ups *)
     assert (HA' : agreeW (with_wake b (skipn 32 (b_wake b))) (firstn 32 (b_wake b) ++ b_wake (with_wake b (skipn 32 (b_wake b))))).
